@@ -286,6 +286,12 @@ type Stream struct {
 // ReaderVal is a reader over a stream.
 type ReaderVal struct{ S *Stream }
 
+// IterVal is a map iterator (ssa.Range).
+type IterVal struct {
+	Over Val
+	Of   ssa.Value
+}
+
 // MapVal is a map with recorded updates.
 type MapVal struct {
 	Name string
